@@ -20,14 +20,14 @@ CLAIMED = {
         technique="static translation validation: grammar IR vs decompiled generated module",
         category="translation_validation",
         text="IR(grammar) through a reference re-statement of the generation step equals IR(decompiled shipped module), for both shipped pairs, per rule and alternative; decided from sources without running the generator.",
-        note="trusts the independent grammar reader, the decompiler and the reference translation in xpverif/; a generator edit that changes future output while shipped files stay untouched is not visible"),
+        note="trusts the independent grammar reader, the decompiler and the reference translation in xpverif/; a generator edit that changes future output while shipped files stay untouched is visible only through the eleven generator facts GF1-GF11 (hash order, keyword regex, truthiness commas, sorted tables, decorator emission, helper identity, class-level state, last definition wins, returns through clean-up, self-edges in the cycle search, NAME-leaf translation) - any other generator-only edit is NOT decided"),
 }
 
 CLAIMED.update({
     "C03": dict(
         technique="loop-progress and exit analysis on a statement CFG, raise/assert/next() inventory over the call graph, reaching-definitions for asserts, abstract-interpretation type hazards",
         category="other",
-        text="Decides, per loop and per raise site: scan-loop progress (fresh snapshot, monotone position writes, incrementing fallback, end-of-line guard), EOF exits of every line-loop mode, no bare next() on the token stream, only SyntaxError/IndentationError/TokenError raised from reachable code, asserts that cannot see None, total lookups, parse() never returning None, absence of attribute/iteration/operand type hazards in actions and helpers, and that no regular expression the scanner matches with is exponentially ambiguous (EDA criterion on the pattern automaton; patterns gathered from the call sites). Termination of the PEG recursion itself rests on W3 (C18) and is bounded only by the interpreter stack (known finding D17).",
+        text="Decides, per loop and per raise site: scan-loop progress (fresh snapshot, monotone position writes, incrementing fallback, end-of-line guard), EOF exits of every line-loop mode, no bare next() on the token stream, only SyntaxError/IndentationError/TokenError raised from reachable code, asserts that cannot see None, total lookups, parse() never returning None, absence of attribute/iteration/operand type hazards in actions and helpers, that no regular expression the scanner matches with is exponentially ambiguous (EDA criterion on the pattern automaton; patterns gathered from the call sites), that the str/bytes guard of literal concatenation rejects both mixed orders, that conversions of input text (int/float/literal_eval) sit in a try that turns ValueError into SyntaxError, that the source file is opened only when a path was given, and - because exponential re-parsing is a hang for practical purposes - the memo-barrier and opener-reread criteria of C18. Termination of the PEG recursion itself rests on W3 (C18) and is bounded only by the interpreter stack (known finding D17).",
         note="callees resolved by method name (over-approximate reachability); regex facts of the progress argument are decided under C08/C09; infeasible-path false alarms are possible in principle for the reaching-definitions rule"),
     "C18": dict(
         technique="graph criterion on the decompiled grammar IR (same-position fork detection through unmemoised rules, nullable analysis), structural check of the memo wrappers",
